@@ -190,6 +190,23 @@ def explore(ctx):
         oa = aglib.run_impl_one(qa, ''.join(lines).encode('utf8'), 'json')
         if oa['rc'] != 0 or b'panicked' in oa['err']:
             failures.append({'kind': 'spec', 'what': 'a failing row operator after an aggregation: rc=%s' % oa['rc'], 'payload': {'query': qa, 'input_lines': lines}})
+    # ... and on a live terminal, where the stages after the sort are re-run on every refresh: the error: lines are those of a
+    # non-terminal run - each failing row once, the right row's message (inputs whose final table holds every row)
+    import ptydrive
+    for la in ([b'x=5 z=abc\n', b'x=1\n'], [b'x=1\n', b'x=5 z=abc\n', b'x=3\n'], [b'x=%d %s=1\n' % (j, b'z' if j % 3 == 0 else b'y') for j in range(9)]):
+        q = '* | logfmt | sort by x | z + 1 as w'
+        op = aglib.run_impl_one(q, b''.join(la), 'json')
+        want_err = sorted(l for l in op['err'].decode('utf8', 'replace').split('\n') if l.startswith('error:'))
+        got_err = None
+        for attempt in range(2):         # a busy machine may merge refreshes: the lines must still be the same
+            ol = ptydrive.run_pty(q, [(l, 0.2) for l in la[:-1]] + [(la[-1], 0.0)], 24, 80)
+            got_err = sorted(l for l in ol['err'].decode('utf8', 'replace').split('\n') if l.startswith('error:'))
+            if got_err == want_err:
+                break
+        iso += 1
+        if got_err != want_err:
+            failures.append({'kind': 'spec', 'what': 'rows dropped after a sort on a live terminal: stderr %r, a non-terminal run reports %r' % (got_err, want_err),
+                             'payload': {'query': q, 'schedule': [(l.decode(), 0.2) for l in la], 'terminal': [24, 80]}})
     # the same after an aggregation: an aggregate row on which a later row operator fails is skipped, every other
     # aggregate row comes through (reference: each group run alone through the same query, results put together)
     for i in range(12 if quick else 200):
